@@ -76,6 +76,67 @@ def same(a, b, is_text):
     return sf.same_value(a, b) or (a is None and b is None)
 
 
+def float_text_correspondence(ck, H, rng, n):
+    """The executable model of binary64 rounding and of the two text conversions (coq/FloatText.v: dbl, of_text, to_text) against
+    CPython and the real FloatField: same (places, digits) cases, the double as an exact fraction and the digits written back."""
+    from fractions import Fraction
+    from decimal import Decimal
+    cases = [(2, 10), (2, 0), (2, -1), (0, 7), (5, 1), (5, 20115), (2, 900719925474099201), (2, 7036874417766399), (0, 2 ** 53 + 1), (5, 10 ** 5)]
+    for _ in range(n):
+        p = rng.choice([0, 2, 2, 2, 5])
+        mag = rng.choice([1, 3, 6, 9, 12, 15, 17, 20, 25])
+        k = rng.randrange(0, 10 ** mag + 1)
+        if rng.random() < 0.3:
+            k = -k
+        if rng.random() < 0.15:
+            k = rng.choice([2 ** rng.randrange(1, 80), 2 ** rng.randrange(1, 80) + 1, 10 ** rng.randrange(0, 22)])
+        cases.append((p, k))
+    rows = '; '.join('(%s, %s)' % (gen_cz(p), gen_cz(k)) for p, k in cases)
+    txt = ['From Coq Require Import ZArith QArith List.', 'From HV Require Import Forms FloatText.', 'Import ListNotations.',
+           'Goal True. idtac "@@FT". Abort.',
+           'Eval vm_compute in map (fun pk : Z * Z => let v := Qred (of_text (fst pk) (snd pk)) in [Qnum v; Zpos (Qden v); to_text (fst pk) v; '
+           'if Qle_bool (1 / pow10 (fst pk)) (ulp (inject_Z (snd pk) / pow10 (fst pk))) then 0 else 1]%%Z) [%s].' % rows,
+           'Goal True. idtac "@@ENDFT". Abort.']
+    ok, out = ck.coqc(ck.write_gen('C14_floattext.v', '\n'.join(txt) + '\n'), timeout=900)
+    ck.oblige('correspondence:float-text model vs CPython (%d cases)' % len(cases), ok, out[-300:] if not ok else '')
+    if not ok:
+        return
+    seg = out.split('@@FT', 1)[1].split('@@ENDFT')[0].split(': list')[0]
+    lists = [[int(x) for x in re.findall(r'-?\d+', r)] for r in re.findall(r'\[([^\[\]]*)\]', seg.split('=', 1)[1])]
+    lists = [l for l in lists if len(l) == 4]
+    F = H['fields']
+
+    class FakeForm(object):
+        def name(self):
+            return 'f'
+    bad = 0
+    guard_yes = 0
+    for (p, k), (num, den, digits, guard) in zip(cases, lists):
+        text = '%s%s' % ('-' if k < 0 else '', format(Decimal(abs(k)).scaleb(-p), 'f'))
+        v = float(text)
+        fr = Fraction(v)
+        fld = F.FloatField('l', lambda s_, i_, v_: None, places=p)
+        fld.__form_init__(FakeForm())
+        written = fld.to_string(v)
+        wdigits = int(written.replace('.', '').replace('-', '')) * (-1 if written.startswith('-') and float(written) != 0 else 1)
+        back = fld.from_string(written)
+        ck.count(('float-text', p, k), nontrivial=True)
+        guard_yes += guard
+        if (fr.numerator, fr.denominator) != (num, den) or wdigits != digits:
+            bad += 1
+            ck.violation('C14:float-text-model', 'places %d, digits %d: CPython float(%s) = %s/%s written back as %s; the model has %s/%s and digits %s' % (
+                p, k, text, fr.numerator, fr.denominator, written, num, den, digits),
+                {'kind': 'proof-or-correspondence', 'theorem_or_correspondence': 'FloatText.dbl / to_text vs CPython', 'places': p, 'digits': k}, found=False)
+        if guard == 1 and (wdigits != k or back != v):
+            ck.violation('C14:float-text-roundtrip:%d' % p, 'a %d-place value %s (%r) is written as %s and read back as %r' % (p, text, v, written, back),
+                         {'kind': 'failing-input', 'places': p, 'digits': k, 'value': v.hex(), 'written': written, 'read_back': repr(back)}, found=True)
+    ck.cov['float_text_model'] = {'cases': len(cases), 'inside_the_guard_of_the_theorem': guard_yes, 'disagreements': bad}
+
+
+def gen_cz(z):
+    return '(%d)%%Z' % z
+
+
 def run(tier, seed):
     ck = Check('C14', tier, seed)
     rng = random.Random(seed + 14)
@@ -83,12 +144,14 @@ def run(tier, seed):
                'solutions; non-trivial = value that is not a plain short token (negative, zero, >1e9, <0.01, text with special characters, '
                'enumeration members)')
     ck.trusted = ['Coq 8.16.1 kernel', 'int: the standard library DecimalString conversions stand for str(int)/int(str) on canonical text',
-                  'money: modelled as scaled integers; the character-level work of format()/float() and binary64 rounding are NOT modelled - '
-                  'every real value is pushed through the real chain instead (bit-exact comparison)',
+                  'money: digits as scaled integers (C14_money_rt); binary64 rounding and the two text conversions as exact-rational functions '
+                  '(FloatText.dbl / of_text / to_text, C14_float_text_roundtrip), compared with CPython float()/format() and the real FloatField on every run; '
+                  'the character-level work of format()/float() itself is CPython; every real value is also pushed through the real chain (bit-exact comparison)',
                   'configparser write/read: not modelled; text is claimed equal only up to surrounding white space',
                   'enum_rt premises (member names distinct from "" and listed) are checked for every enumeration of every year below']
     sf.compile_props(ck, 'C14')
     H = scenarios.habutax_modules()
+    float_text_correspondence(ck, H, random.Random(seed + 1414), 60 if tier == 'quick' else 1500)
     F = H['fields']
 
     class FakeForm(object):
